@@ -997,6 +997,14 @@ pub fn check_strategy(c: &StrategyCase, l: &mut Local) -> Result<(), Fail> {
     let rows = strategy_rows(&c.kind, c.bits)?;
     let t = format!("strategy.{}", c.kind);
     if rows.is_empty() {
+        // ecm128 documents a single unsupported range ("Only numbers below 128 bits are supported") and its
+        // callers (factor_impl below 80 bits with try_harder, the sieves' cofactor splitting) take None for
+        // "no factor found": a size inside 2..=128 bits for which no (curves, B1, B2) row is selected at all
+        // means zero curves are run, i.e. the derived curve count is not positive.  The other strategies
+        // legitimately skip small sizes (ecm_auto, pm1_quick).
+        if c.kind.starts_with("ecm128") {
+            return Err(fail(&t, "row-for-every-size", format!("{}(bits={}) selects no (curves, B1, B2) row: no curve is run", c.kind, c.bits)));
+        }
         l.label(&format!("strategy:{}:no-row", c.kind));
         return Ok(());
     }
